@@ -303,11 +303,17 @@ func (m *Machine) Branch(c *smt.Term) bool {
 	if r2 == smt.Unknown {
 		m.res.FeasUnknown++
 	}
+	if profileForks {
+		m.note("fork@%s", m.stackOf(m.curFrame(), 2))
+	}
 	m.fork(0)
 	m.record(1)
 	m.addPC(c)
 	return true
 }
+
+// profileForks (VERIF_FORKS=1): every symbolic branch that forks is counted per call site in the notes.
+var profileForks = os.Getenv("VERIF_FORKS") != ""
 
 // Choose returns a nondeterministic value in [0,n); every value is explored.
 func (m *Machine) Choose(n int, why string) int {
